@@ -807,7 +807,7 @@ func traceRows() [2][]*tracev1.WriteRequest {
 		w := &tracev1.WriteRequest{
 			Tags: []*modelv1.TagValue{
 				e2e.Str(fmt.Sprintf("tr%d", tr)), e2e.Str(fmt.Sprintf("sp%02d", i)), e2e.Str(svcs[tr%2]), e2e.Int(int64(tr % 3 / 2)),
-				e2e.Int(durs[i%len(durs)]), e2e.Time(e2e.At(int64(i)*70+int64(tr)*3)),
+				e2e.Int(durs[i%len(durs)]), e2e.Time(e2e.At(int64(i)*70 + int64(tr)*3)),
 			},
 			Span: []byte(fmt.Sprintf("span-%02d", i)),
 		}
